@@ -3,10 +3,11 @@
     python3 tools/props/c01p.py [--tier quick|thorough] [--seed N]
 
 For every generated (configuration, operation) pair the real planner's plan is dumped (harness/cmd/c01p), translated
-to the Coq plan form and given to the verified validator `tv2_static_b` extracted into bin/model_c01p
-(ocaml/c01p/driver.ml).  By theorem `tv2_sound` (coq/C01/ProofsTvMain.v) acceptance means: for EVERY universe of the
-contract `univ2_contract_b` the gateway model executing that plan returns what a single server over the supergraph
-returns for the client's operation.  The translation is checked, not trusted: the model's own requests must be the
+to the Coq plan form (a plan TREE, coq/C01/ProofsPlan3.v; fallback: the depth-1 form of ProofsPlan2.v) and given to the
+verified validator `tv3_static_b` (`tv2_static_b`) extracted into bin/model_c01p (ocaml/c01p/driver.ml).  By theorem
+`tv3_sound` (coq/C01/ProofsPlan3Main.v; `tv2_sound`, ProofsTvMain.v) acceptance means: for EVERY universe of the contract
+`univ3_contract_b` the gateway model executing that plan returns what a single server over the supergraph returns for
+the client's operation.  The translation is checked, not trusted: the model's own requests must be the
 real plan's requests and the requests of real end-to-end runs, and the extracted model run on the sampled universes
 must return the real gateway's response."""
 import glob
@@ -29,7 +30,9 @@ ASSUMPTIONS = [
     "execute the dumped plan as the model does is not proved here: it is tied by (a) the request comparison of this part (model "
     "requests == fetches of the real plan; every request of real end-to-end runs is one of the model's, modulo printing, batching of "
     "the per-object entity requests and single flight), (b) the extracted gateway3 run on the sampled universes == the real gateway "
-    "response, member for member, and by the loader / renderer / scheduler models of C02, C07, C08",
+    "response, member for member (runs that agree only up to the ORDER of object members are counted in member_order_differences: "
+    "the engine's response tree keeps one occurrence of a field selected both under a type condition and without), and by the "
+    "loader / renderer / scheduler models of C02, C07, C08",
     "C01p trusted base: harness/cmd/c01p (planning with the engine's own recipe -- normalise, validate, extract + map variables, "
     "plan.Planner, postprocess.Processor --, dump of fetch tree / request templates / representation templates; the upstream query "
     "texts are parsed with the repo's parser and dumped by fedlab.DumpDocument), ocaml/c01p/driver.ml (reader, the canonical form "
@@ -39,7 +42,7 @@ ASSUMPTIONS = [
     "variables, variables renamed); that normalisation preserves the client operation's meaning is property C03; configurations "
     "satisfy harness/fedlab/CONTRACT.md; the universe contract univ3_contract_b (objects reached through a subgraph's fields have "
     "types the subgraph declares, declared keys identify entities, key fields and @requires inputs are plain non-null leaves, "
-    "computed (@requires) fields only where declared, list-typed fields hold lists) is evaluated on every sampled universe and the "
+    "computed (@requires) fields only where declared; nothing is assumed about the values of list-typed fields) is evaluated on every sampled universe and the "
     "count reported",
 ]
 
@@ -151,6 +154,13 @@ def run_part(chk, n_cfg=None, unis=None):
             if c:
                 pv["universes_in_contract"] += int(c.group(1))
                 pv["universes_run"] += int(c.group(2))
+            od = re.search(r"\(member_order_diffs (\d+)\)", detail)
+            if od and int(od.group(1)) > 0:
+                # the real gateway's response equals the model's (hence the monolith's) up to the order of object members
+                pv["member_order_differences"] = pv.get("member_order_differences", 0) + int(od.group(1))
+                pv.setdefault("member_order_sample", " ".join(pid) if pid else "")
+            if "(abstract true)" in detail and "(accepted true)" in detail:
+                pv["accepted_with_abstract_selection"] = pv.get("accepted_with_abstract_selection", 0) + 1
             if "(accepted true)" in detail:
                 pv["accepted"] += 1
                 th = "tv3_sound" if "(theorem tv3_sound)" in detail else "tv2_sound"
@@ -183,7 +193,7 @@ def run_part(chk, n_cfg=None, unis=None):
                                   case=found, found_input=True, key="c01p:" + re.sub(r"\(.*", "", hyp))
             else:
                 chk.add_violation("plan_ok/rejected-in-fragment",
-                                  "validator rejects the real plan; failed hypothesis of tv2_sound: %s; no universe with gateway != monolith "
+                                  "validator rejects the real plan; failed hypothesis of tv3_sound / tv2_sound: %s; no universe with gateway != monolith "
                                   "found (%s): %s" % (hyp, note, detail[:1500]),
                                   case=case[:20000], found_input=False, key="c01p:" + re.sub(r"\(.*", "", hyp))
     pv["samples"] = samples
